@@ -8,5 +8,6 @@ import WrapModel.Model.Dump
 import WrapModel.Model.Hex
 import WrapModel.Model.Inst
 import WrapModel.Model.IDump
+import WrapModel.Model.Pybind
 import WrapModel.Model.Driver
 import WrapModel.Props.C01
